@@ -17,14 +17,46 @@ type Unspec struct {
 }
 
 func (pass *Unspec) Process(schemas []*ast.Schema) ([]*ast.Schema, error) {
+	renames := make(map[ast.RefType]string)
 	for i, schema := range schemas {
-		schemas[i] = pass.processSchema(schema)
+		schemas[i] = pass.processSchema(schema, renames)
+	}
+
+	if len(renames) == 0 {
+		return schemas, nil
+	}
+
+	// references to the renamed objects have to follow them
+	newName := func(pkg string, name string) string {
+		if renamed, found := renames[ast.RefType{ReferredPkg: pkg, ReferredType: name}]; found {
+			return renamed
+		}
+		return name
+	}
+	visitor := &Visitor{
+		OnRef: func(_ *Visitor, _ *ast.Schema, def ast.Type) (ast.Type, error) {
+			def.Ref.ReferredType = newName(def.Ref.ReferredPkg, def.Ref.ReferredType)
+			return def, nil
+		},
+		OnConstantRef: func(_ *Visitor, _ *ast.Schema, def ast.Type) (ast.Type, error) {
+			def.ConstantReference.ReferredType = newName(def.ConstantReference.ReferredPkg, def.ConstantReference.ReferredType)
+			return def, nil
+		},
+	}
+
+	schemas, err := visitor.VisitSchemas(schemas)
+	if err != nil {
+		return nil, err
+	}
+
+	for _, schema := range schemas {
+		schema.EntryPoint = newName(schema.Package, schema.EntryPoint)
 	}
 
 	return schemas, nil
 }
 
-func (pass *Unspec) processSchema(schema *ast.Schema) *ast.Schema {
+func (pass *Unspec) processSchema(schema *ast.Schema, renames map[ast.RefType]string) *ast.Schema {
 	schema.Objects = schema.Objects.Filter(func(_ string, object ast.Object) bool {
 		return !strings.EqualFold(object.Name, "metadata")
 	})
@@ -38,7 +70,7 @@ func (pass *Unspec) processSchema(schema *ast.Schema) *ast.Schema {
 			if schema.Metadata.Identifier != "" {
 				object.Name = schema.Metadata.Identifier
 			}
-
+			renames[object.SelfRef] = object.Name
 			object.SelfRef.ReferredType = object.Name
 			object.AddToPassesTrail(fmt.Sprintf("Unspec[%s → %s]", name, object.Name))
 		}
